@@ -66,4 +66,5 @@ def main():
         shutil.rmtree(tmp, ignore_errors=True)
     sys.exit(0 if ok else 1)
 
-main()
+if __name__ == "__main__":
+    main()
